@@ -302,13 +302,19 @@ def cases(draw, prof=None):
 
 def run_shard(ctx):
     files = corpus_files()
+    from .c19 import explore
     for rel in files[ctx.shard::ctx.nshards]:
+        if ctx.out_of_time():
+            break
         check_corpus({'corpus': rel}, ctx)
     ctx.extra['repository_files'] = len(files)
-    ctx.given(cases(PROFILE), check_case, ctx.scale(1600, 30000))
     from ..fprog import gen as fgen
-    prof = fgen.profile(assoc=True, pragmas=True, stmtfunc=False)
-    ctx.given(fgen.cases(prof).map(lambda c: {'fprog': c}), check_fprog, ctx.scale(160, 3000), label="fprog")
+    fprof = fgen.profile(assoc=True, pragmas=True, stmtfunc=False)
+    if ctx.thorough:
+        # interleave so that a short budget still sees both populations
+        explore(ctx, fgen.cases(fprof).map(lambda c: {'fprog': c}), check_fprog, min(200, ctx.scale(160, 3000)), 'fprog')
+    explore(ctx, cases(PROFILE), check_case, ctx.scale(1600, 30000), 'main')
+    explore(ctx, fgen.cases(fprof).map(lambda c: {'fprog': c}), check_fprog, ctx.scale(160, 3000), 'fprog' if not ctx.thorough else 'fprog-b')
 
 
 def replay(case, ctx):
